@@ -43,6 +43,9 @@ type Entry struct {
 	Cost int
 	// Group for native fuzz targets and reporting.
 	Group string
+	// IDFields are offsets of 16-bit identifier / code-point fields in Valid(0): the sweep tries all 65536
+	// values of each (tables of accepted identifiers and the tables that give them a meaning can disagree).
+	IDFields []int
 	// Moduli are entry-specific moduli (big-endian) whose boundary values the slot sweep writes into the
 	// integer slots of the valid encodings, in addition to the package-level constants of slots.go
 	// (e.g. the RSA modulus of the key the entry works with).
@@ -283,6 +286,30 @@ func Sweep(t *testing.T, registry []Entry) {
 		}
 		total += r
 		cut += c
+	}
+	ids := 0
+	for ei, e := range sortedRegistry(registry) {
+		e := e
+		if ei%vlib.NShards != vlib.Shard || len(e.IDFields) == 0 || e.Valid == nil {
+			continue
+		}
+		v := e.Valid(0)
+		d := &directTB{t: t}
+		for _, off := range e.IDFields {
+			if off+2 > len(v) {
+				continue
+			}
+			for val := 0; val < 1<<16; val++ {
+				in := append([]byte{}, v...)
+				in[off], in[off+1] = byte(val>>8), byte(val)
+				d.replay = map[string]interface{}{"entry": e.Name, "input": fmt.Sprintf("%x", in)}
+				probe(d, &e, "id-sweep", in)
+				ids++
+			}
+		}
+	}
+	if ids > 0 {
+		vlib.Exhaustive("c10-identifier-fields", int64(ids), "all 65536 values of every 16-bit identifier field of the entries that declare them")
 	}
 	vlib.Exhaustive("c10-slot-boundary-values", int64(total),
 		fmt.Sprintf("%d lowest-priority cases cut by the per-entry budget; ", cut)+"every slot position (k·w, 1+k·w from the start, k·w from the end and after length fields; capped per encoding in quick) of the valid encodings × {m-1, m, m+1, 2m} × {big, little endian} × free top-bit flag combinations, m over the moduli and group orders of slots.go (all families at the first/last slot, the entry's own families at every slot) and the entry's own moduli; packed-coefficient patterns q-1, q, q+1 for Kyber/Dilithium encodings")
